@@ -117,7 +117,19 @@ func main() {
 	// repo contract files (zz_contracts_verif.go in each loaded package)
 	var contractLemmas []string
 	for _, p := range v.pkgs {
+		// the always-loaded zz_contracts_verif.go first, so that a tagged file whose name sorts before it can `extend` its contracts
+		files := make([]string, 0, len(p.GoFiles))
 		for _, f := range p.GoFiles {
+			if filepath.Base(f) == "zz_contracts_verif.go" {
+				files = append(files, f)
+			}
+		}
+		for _, f := range p.GoFiles {
+			if filepath.Base(f) != "zz_contracts_verif.go" {
+				files = append(files, f)
+			}
+		}
+		for _, f := range files {
 			if isContractFile(filepath.Base(f), cfg.Tags) {
 				before := len(v.lemmaOrder)
 				if err := v.LoadSpecFile(f, p.PkgPath, false); err != nil {
